@@ -1,5 +1,6 @@
 """Dispatch: property id -> rule module."""
 import importlib
+import os
 import sys
 
 from .model import Program
@@ -29,10 +30,118 @@ def run(pid, tier="quick", seed=0):
         print("CHECK-ERROR property=%s no rule module (not claimed / not applicable)" % pid)
         return 2
     rep = Report(pid, tier, seed)
-    import os
     prog = program(os.environ.get("VERIF_CONFIG", "default"))
     rep.stats = prog.stats()
     rep.trusted = ["rustc nightly front end + MIR construction (facts)", "std and external crates (not analysed)",
                    "mirfacts driver (fact extraction)", "tvrules rule engine"]
     mod.run(rep, prog, tier)
+    if tier == "thorough" and not os.environ.get("VERIF_CONFIG"):
+        thorough(rep, mod, pid)
     return rep.finish()
+
+
+EXTRA_CONFIGS = ("quickwit", "zstd", "failpoints")
+WITNESSES = {"C05": ("C05OwnedBytesImmutable", "C05SearcherImmutable"), "C18": ("C18LockNotClone", "C18NewIsPrivate", "C18LockFieldPrivate"), "C20": ("C20AntiCallToken",)}
+
+
+class ConfigView:
+    """report the obligations of a run under another build configuration into the main report:
+    discharged obligations are prefixed with the configuration, violations keep their key (so a
+    known finding stays the same finding in every configuration, and duplicates are dropped)."""
+    def __init__(self, rep, cfg):
+        self._r = rep
+        self._c = cfg
+        self.extra = {}
+        self.not_decided = []
+        self.stats = {}
+
+    def __getattr__(self, k):
+        return getattr(self._r, k)
+
+    def rule(self, *a, **kw):
+        pass
+
+    def ok(self, rule, instance, detail="", site=""):
+        self._r.ok(rule, "[%s] %s" % (self._c, instance), detail, site)
+
+    def fail(self, rule, key, msg, site="", path=None):
+        if any(v["rule"] == rule and v["key"] == key for v in self._r.violations):
+            return
+        self._r.fail(rule, key, "[config %s] %s" % (self._c, msg), site, path)
+
+    def check(self, cond, rule, key, ok_detail="", fail_msg="", site="", path=None):
+        if cond:
+            self.ok(rule, key, ok_detail, site)
+        else:
+            self.fail(rule, key, fail_msg or ("obligation failed: " + ok_detail), site, path)
+        return cond
+
+    def floor(self, rule, what, count, floor):
+        if count < floor:
+            self.fail(rule, "floor:" + what, "cannot establish %s: matched %d, %d confirmed" % (what, count, floor))
+        else:
+            self.ok(rule, "floor:" + what, "%d >= %d" % (count, floor))
+
+    def sample(self, s_):
+        pass
+
+
+def thorough(rep, mod, pid):
+    import json
+    import subprocess
+    import concurrent.futures as cf
+    verif = os.path.dirname(os.path.dirname(os.path.abspath(__file__)))
+    # 1. every extra build configuration that the repository builds offline
+    cfgs = []
+    for cfg in EXTRA_CONFIGS:
+        try:
+            p2 = program(cfg)
+        except Exception as e:  # a feature set that does not build is reported, not ignored
+            rep.fail(pid + "-CFG", "configuration %s builds" % cfg, "cannot build the fact base for feature set `%s`: %s" % (cfg, str(e)[:300]))
+            continue
+        cfgs.append(cfg)
+        mod.run(ConfigView(rep, cfg), p2, "quick")
+    rep.extra["configurations"] = ["default"] + cfgs + (["nodebug"] if pid == "C15" else [])
+    # 2. both-ways self-test: the seeded variants of this property must be caught, the benign refactors must stay silent
+    exp = json.load(open(os.path.join(verif, "selftest", "expect.json")))
+    names = sorted(n for n, e in exp.items() if e["property"] == pid or pid in e.get("also", []))
+
+    def one(name):
+        e = exp[name]
+        import tempfile
+        evd = tempfile.mkdtemp(prefix="tvself-ev-")
+        env = dict(os.environ, VERIF_EVIDENCE_DIR=evd, VERIF_TIER="quick")
+        env.pop("VERIF_CONFIG", None)
+        r = subprocess.run([os.path.join(verif, "tools", "with_patch.sh"), os.path.join(verif, "selftest", name), os.path.join(verif, "check"), pid, "--tier", "quick"],
+                           cwd=verif, env=env, stdout=subprocess.PIPE, stderr=subprocess.STDOUT, text=True)
+        subprocess.run(["rm", "-rf", evd])
+        lines = [l.strip() for l in r.stdout.splitlines() if l.strip().startswith("violation")]
+        if e.get("benign"):
+            return name, r.returncode == 0, "silent" if r.returncode == 0 else "false alarm: " + " | ".join(lines)[:300]
+        hit = [l for l in lines if all(x in l for x in e["expect"])]
+        return name, r.returncode == 1 and bool(hit), (hit[0][:160] if hit else "rc=%d %s" % (r.returncode, r.stdout[-300:]))
+    caught = 0
+    with cf.ThreadPoolExecutor(6) as ex:
+        for name, ok, info in ex.map(one, names):
+            e = exp[name]
+            if e.get("benign"):
+                rep.check(ok, pid + "-SELFTEST", "benign refactor %s stays silent" % name, info, "the check raises an alarm on a behaviour-preserving change: %s" % info)
+            else:
+                rep.check(ok, pid + "-SELFTEST", "seeded variant %s is caught" % name, info, "the check misses the seeded variant %s: %s" % (name, info))
+            caught += 1 if ok else 0
+    rep.extra["selftest_variants"] = len(names)
+    rep.rules[pid + "-SELFTEST"] = "both-ways self-test: each seeded one-instance-broken variant of this property (scratch copy of /repo, still compiles) must make this check fire naming the instance; benign refactors must not"
+    # 3. compile-fail witnesses
+    if pid in WITNESSES:
+        r = subprocess.run([os.path.join(verif, "tools", "run_witness.py")], stdout=subprocess.PIPE, stderr=subprocess.STDOUT, text=True)
+        res = {}
+        for l in r.stdout.splitlines():
+            if l.startswith("WITNESS "):
+                _, nm, st = l.split()
+                res[nm] = st
+        rep.rules[pid + "-WITNESS"] = "compile_fail witnesses (rustdoc, nightly, with error code) paired with compiling twins: the violating program does not type-check"
+        for w in WITNESSES[pid]:
+            for kind in ("compile_fail", "twin"):
+                k = "%s:%s" % (w, kind)
+                rep.check(res.get(k) == "ok", pid + "-WITNESS", "witness %s" % k, "as expected (%s)" % ("rejected by the compiler with the expected error code" if kind == "compile_fail" else "the twin without the offending line compiles and runs"),
+                          "witness %s: %s — %s" % (k, res.get(k, "did not run"), "the violating program now compiles" if kind == "compile_fail" else "the twin no longer compiles: the witness is vacuous"))
